@@ -12,6 +12,7 @@ import (
 	g "github.com/zenon-network/go-zenon/chain/genesis/mock"
 	"github.com/zenon-network/go-zenon/chain/nom"
 	"github.com/zenon-network/go-zenon/common/types"
+	"github.com/zenon-network/go-zenon/protocol"
 	"github.com/zenon-network/go-zenon/wallet"
 	"github.com/zenon-network/go-zenon/zenon/mock"
 )
@@ -25,21 +26,80 @@ var users = []*wallet.KeyPair{g.User1, g.User2, g.User3, g.User4, g.User5}
 // every branch, apart from what the receiving node's own unconfirmed blocks add
 var quiet = []*wallet.KeyPair{g.Pillar1, g.Pillar2, g.Pillar3, g.Pillar4, g.Pillar5, g.Pillar6, g.Pillar7, g.Pillar8, g.Spork}
 
+// A stray: a VALID account block (signed, right previous block, acknowledged momentum below, funds, plasma) that was
+// generated on the producing node in the very state a receiver is in when it has applied the account blocks of the
+// momentum (chain up to the momentum before, the momentum's blocks unconfirmed) and that the momentum does not name.
+// It is never stored on the producer. Delivered with that momentum it is a surplus account block that verifies.
+type stray struct {
+	b          *nom.AccountBlock
+	inMomentum bool // its account has blocks in the momentum (the stray sits on top of the last of them)
+}
+
+var strays = map[types.Hash][]stray{} // by momentum hash; reset per history
+
 // grow: k momentums on nd with random ZNN sends (content) and slot gaps
 func grow(nd *Node, rng *rand.Rand, k int) {
 	for i := 0; i < k; i++ {
+		var senders []*wallet.KeyPair
 		for s := 0; s < rng.Intn(3); s++ {
 			from, to := users[rng.Intn(len(users))], users[rng.Intn(len(users))]
 			bal, _ := nd.Ch.GetFrontierAccountStore(from.Address).GetBalance(types.ZnnTokenStandard)
 			if bal.Cmp(big.NewInt(1000)) > 0 {
 				nd.Z.InsertSendBlock(&nom.AccountBlock{Address: from.Address, ToAddress: to.Address,
 					TokenStandard: types.ZnnTokenStandard, Amount: big.NewInt(int64(1 + rng.Intn(999)))}, nil, mock.SkipVmChanges)
+				senders = append(senders, from)
 			}
+		}
+		var st []stray
+		if rng.Intn(4) != 0 {
+			st = makeStrays(nd, rng, senders)
 		}
 		if err := ProduceAt(nd, []int64{10, 10, 10, 20, 30}[rng.Intn(5)]); err != nil {
 			panic(err)
 		}
+		if len(st) > 0 {
+			strays[FrontierOf(nd.Ch).Hash] = st
+		}
 	}
+}
+
+// makeStrays: one or two valid blocks on top of nd's present state (frontier momentum + its unconfirmed blocks) that
+// are NOT put into the pool: of an account that sends in the momentum about to be produced and / or of one that does not
+// (a user or a quiet account), acknowledging the frontier or a momentum 1..2 below it.
+func makeStrays(nd *Node, rng *rand.Rand, senders []*wallet.KeyPair) []stray {
+	var r []stray
+	fr := FrontierOf(nd.Ch)
+	mk := func(kp *wallet.KeyPair, in bool) {
+		ack := types.HashHeight{}
+		if back := uint64(1 + rng.Intn(2)); rng.Intn(3) == 0 && fr.Height > back+1 {
+			m, _ := nd.Ch.GetFrontierMomentumStore().GetMomentumByHeight(fr.Height - back)
+			ack = m.Identifier()
+		}
+		// (the producer's own verifier decides: a template it refuses gives no stray)
+		to := users[rng.Intn(len(users))]
+		tx, err := MakeSend(nd.Sv, kp, to.Address, int64(1+rng.Intn(99)), ack)
+		if err == nil {
+			r = append(r, stray{b: WireCopyBlock(tx.Block), inMomentum: in})
+		}
+	}
+	if len(senders) > 0 && rng.Intn(2) == 0 {
+		mk(senders[rng.Intn(len(senders))], true)
+	}
+	if len(r) == 0 || rng.Intn(3) == 0 {
+		all := append(append([]*wallet.KeyPair{}, users...), quiet...)
+		for try := 0; try < 6; try++ {
+			kp := all[rng.Intn(len(all))]
+			busy := len(nd.Ch.GetUncommittedAccountBlocksByAddress(kp.Address)) > 0
+			for _, sn := range senders {
+				busy = busy || sn.Address == kp.Address
+			}
+			if !busy {
+				mk(kp, false)
+				break
+			}
+		}
+	}
+	return r
 }
 
 func hashAt(ch chain.Chain, h uint64) types.Hash {
@@ -102,9 +162,23 @@ func blockZ(b *nom.AccountBlock) interface{} {
 func corrupt(rng *rand.Rand, e *delivered, src chain.Chain, l chain.Chain, lo, hi uint64) {
 	d := e.d
 	m := d.Momentum
-	kinds := []string{"bad-signature", "wrong-producer", "wrong-changes-hash", "extra-account-block"}
+	kinds := []string{"bad-signature", "wrong-producer", "wrong-changes-hash", "extra-account-block",
+		"surplus-junk-contract-send", "surplus-junk-contract-send", "surplus-block-of-later-momentum"}
 	if len(d.AccountBlocks) > 0 {
-		kinds = append(kinds, "missing-account-block", "invalid-account-block", "missing-account-block", "content-header-mismatch")
+		kinds = append(kinds, "missing-account-block", "invalid-account-block", "missing-account-block", "content-header-mismatch",
+			"duplicate-of-named-block(valid)", "tampered-duplicate-before-named-block", "tampered-duplicate-after-named-block(valid)",
+			"named-block-replaced-by-junk-contract-send")
+	}
+	// valid blocks the momentum does not name (strays made when it was produced). One of an account without blocks in the
+	// momentum only verifies if the receiver holds no unconfirmed block of that account itself.
+	var usable []stray
+	for _, st := range strays[m.Hash] {
+		if st.inMomentum || len(l.GetUncommittedAccountBlocksByAddress(st.b.Address)) == 0 || Pooled(l, st.b) {
+			usable = append(usable, st)
+		}
+	}
+	if len(usable) > 0 {
+		kinds = append(kinds, "surplus-valid-user-block", "surplus-valid-user-block", "surplus-valid-user-block", "surplus-valid-user-block", "surplus-valid-user-block")
 	}
 	var pairs []int // positions of two consecutive blocks of one account
 	for i := 0; i+1 < len(d.AccountBlocks); i++ {
@@ -178,6 +252,68 @@ func corrupt(rng *rand.Rand, e *delivered, src chain.Chain, l chain.Chain, lo, h
 		b := d.AccountBlocks[rng.Intn(len(d.AccountBlocks))]
 		b.Signature[rng.Intn(len(b.Signature))] ^= 0x04
 		e.markBad(b.Hash)
+	case "surplus-junk-contract-send":
+		// contract sends travel inside their receive block: neither InsertChain nor AddAccountBlocks ever looks at one.
+		// Only the momentum's own verification can tell that this one is not named by the content.
+		d.AccountBlocks = insertAt(d.AccountBlocks, rng.Intn(len(d.AccountBlocks)+1), junkContractSend(rng, m.ChainIdentifier))
+		e.okM = false
+	case "named-block-replaced-by-junk-contract-send":
+		// as many delivered blocks as headers, but one header has no block
+		i := rng.Intn(len(d.AccountBlocks))
+		gone := d.AccountBlocks[i]
+		bs := append([]*nom.AccountBlock{}, d.AccountBlocks...)
+		bs[i] = junkContractSend(rng, m.ChainIdentifier)
+		d.AccountBlocks = bs
+		for _, b := range bs[i+1:] {
+			if b.Address == gone.Address {
+				e.markBad(b.Hash)
+			}
+		}
+		e.okM = false
+	case "surplus-valid-user-block":
+		st := usable[rng.Intn(len(usable))]
+		kind += ":account-without-blocks-in-momentum"
+		at := rng.Intn(len(d.AccountBlocks) + 1)
+		if st.inMomentum { // on top of the account's last block in the momentum
+			kind = "surplus-valid-user-block:account-with-blocks-in-momentum"
+			at = len(d.AccountBlocks)
+		}
+		d.AccountBlocks = insertAt(d.AccountBlocks, at, WireCopyBlock(st.b))
+		e.okM = false // every delivered block verifies, the momentum does not: it carries a block it does not name
+	case "duplicate-of-named-block(valid)":
+		// the same block twice: still exactly the blocks the content names (the second copy is "already applied")
+		i := rng.Intn(len(d.AccountBlocks))
+		d.AccountBlocks = insertAt(d.AccountBlocks, i+1+rng.Intn(len(d.AccountBlocks)-i), WireCopyBlock(d.AccountBlocks[i]))
+	case "tampered-duplicate-after-named-block(valid)":
+		// ... the second copy does not even verify, but it is never used: the verified first one is
+		i := rng.Intn(len(d.AccountBlocks))
+		c := WireCopyBlock(d.AccountBlocks[i])
+		c.Signature[rng.Intn(len(c.Signature))] ^= 0x20
+		d.AccountBlocks = insertAt(d.AccountBlocks, i+1+rng.Intn(len(d.AccountBlocks)-i), c)
+	case "tampered-duplicate-before-named-block":
+		// the copy that does not verify comes first (unless the receiver holds the block itself: then neither is looked at)
+		i := rng.Intn(len(d.AccountBlocks))
+		c := WireCopyBlock(d.AccountBlocks[i])
+		c.Signature[rng.Intn(len(c.Signature))] ^= 0x20
+		d.AccountBlocks = insertAt(d.AccountBlocks, rng.Intn(i+1), c)
+		e.markBad(c.Hash)
+	case "surplus-block-of-later-momentum":
+		// a block named by a later momentum of the source (inside the batch or beyond it) is delivered one momentum early
+		var extra *nom.AccountBlock
+		for h := m.Height + 1; h <= m.Height+6 && extra == nil; h++ {
+			if o := DetailedAt(src, h); o != nil && len(o.AccountBlocks) > 0 && !Pooled(l, o.AccountBlocks[0]) &&
+				o.AccountBlocks[0].MomentumAcknowledged.Height >= m.Height {
+				extra = WireCopyBlock(o.AccountBlocks[0]) // acknowledges a momentum the receiver cannot have at that point
+			}
+		}
+		if extra == nil {
+			d.AccountBlocks = insertAt(d.AccountBlocks, rng.Intn(len(d.AccountBlocks)+1), junkContractSend(rng, m.ChainIdentifier))
+			kind = "surplus-junk-contract-send"
+		} else {
+			d.AccountBlocks = append(append([]*nom.AccountBlock{}, d.AccountBlocks...), extra)
+			e.markBad(extra.Hash)
+		}
+		e.okM = false
 	case "extra-account-block":
 		// a block the momentum does not list: taken from a momentum of the source chain outside the batch, or made up
 		var extra *nom.AccountBlock
@@ -205,6 +341,23 @@ func corrupt(rng *rand.Rand, e *delivered, src chain.Chain, l chain.Chain, lo, h
 	e.reason = kind
 }
 
+func insertAt(bs []*nom.AccountBlock, i int, b *nom.AccountBlock) []*nom.AccountBlock {
+	r := append([]*nom.AccountBlock{}, bs[:i]...)
+	r = append(r, b)
+	return append(r, bs[i:]...)
+}
+
+var embedded = []types.Address{types.TokenContract, types.PillarContract, types.PlasmaContract, types.StakeContract, types.SentinelContract}
+
+// a made-up send block of an embedded contract: random hash, height and amount
+func junkContractSend(rng *rand.Rand, chainId uint64) *nom.AccountBlock {
+	b := &nom.AccountBlock{Version: 1, ChainIdentifier: chainId, BlockType: nom.BlockTypeContractSend,
+		Address: embedded[rng.Intn(len(embedded))], ToAddress: users[rng.Intn(len(users))].Address,
+		Height: uint64(1 + rng.Intn(200)), Amount: big.NewInt(int64(rng.Intn(1000)) * g.Zexp), TokenStandard: types.ZnnTokenStandard}
+	rng.Read(b.Hash[:])
+	return WireCopyBlock(b)
+}
+
 // observable result class: 0 = (0, nil), 1 = an error with an index, 3 = panic. InsertChain's own refusals and the
 // verifier's rejections are both plain error values; they are told apart by the frontier and the index, not by text.
 func errClass(err error, panicked interface{}) (int64, string) {
@@ -218,13 +371,25 @@ func errClass(err error, panicked interface{}) (int64, string) {
 }
 
 func tryInsert(b *BareNode, ds []*nom.DetailedMomentum) (idx int, err error, panicked interface{}) {
+	return tryInsertBr(b.Br, ds)
+}
+func tryInsertBr(br protocol.ChainBridge, ds []*nom.DetailedMomentum) (idx int, err error, panicked interface{}) {
 	defer func() {
 		if r := recover(); r != nil {
 			panicked = r
 		}
 	}()
-	idx, err = b.Br.InsertChain(ds)
+	idx, err = br.InsertChain(ds)
 	return
+}
+
+// servedFirst: another writer of the receiving node that obtains the insert lock while the observed InsertChain is
+// waiting for it (run from the pre-lock hook of the bridge). It returns what it inserted as batches for the model
+// (own production = a batch of one valid momentum whose blocks the node holds in its pool).
+type servedFirst struct {
+	name string
+	lo   uint64 // lowest height it may deliver (0: only above the frontier)
+	run  func() [][]delivered
 }
 
 type world struct {
@@ -246,12 +411,35 @@ func (w *world) remember(nd *Node) {
 	}
 }
 
+// term of a batch for the model: momentums with the generator's flags, account blocks without contract sends
+func batchTerm(batch []delivered) []interface{} {
+	dl := Lst()
+	for _, e := range batch {
+		bl := Lst()
+		for _, b := range e.d.AccountBlocks {
+			if b.BlockType == nom.BlockTypeContractSend {
+				continue
+			}
+			bl = append(bl, Tup(hashZ(b.Hash), addrZ(b.Address), U64(b.Height), !e.bad(b.Hash)))
+		}
+		dl = append(dl, Tup(hashZ(e.d.Momentum.Hash), hashZ(e.d.Momentum.PreviousHash), U64(e.d.Momentum.Height), e.okM, bl))
+	}
+	return dl
+}
+
 // deliver one batch to the local node, compare with the model, evaluate the property directly
 func (w *world) deliver(batch []delivered, kind string, src chain.Chain) {
+	w.deliverAfter(batch, kind, src, nil)
+}
+
+// deliverAfter: the same with another writer served first on the insert lock (first != nil). Everything InsertChain
+// decides is judged against the node AS IT IS WHEN THE LOCK IS TAKEN: the snapshot of chain and pool the oracles use is
+// taken at the end of the pre-lock hook, and the model gets the state before the hook plus what the other writer inserted.
+func (w *world) deliverAfter(batch []delivered, kind string, src chain.Chain, first *servedFirst) {
 	out, l := w.out, w.l
-	before := l.Frontier()
-	// local chain as the model sees it: from below the lowest delivered height / 36 below the frontier
-	lo := before.Height
+	before0 := l.Frontier()
+	// local chain as the model sees it: from below the lowest delivered height / 37 below the frontier
+	lo := before0.Height
 	if lo > 37 {
 		lo -= 37
 	} else {
@@ -262,40 +450,60 @@ func (w *world) deliver(batch []delivered, kind string, src chain.Chain) {
 			lo = h - 1
 		}
 	}
+	if first != nil && first.lo >= 2 && first.lo-1 < lo {
+		lo = first.lo - 1
+	}
 	local := Lst()
-	oldHashes := map[uint64]types.Hash{}
 	st := l.Ch.GetFrontierMomentumStore()
-	for h := lo; h <= before.Height; h++ {
+	for h := lo; h <= before0.Height; h++ {
 		m, _ := st.GetMomentumByHeight(h)
 		local = append(local, Tup(hashZ(m.Hash), hashZ(m.PreviousHash), U64(m.Height)))
 	}
-	for h := uint64(1); h <= before.Height; h++ {
-		oldHashes[h] = hashAt(l.Ch, h)
-	}
-	// the unconfirmed pool of the receiving node
-	poolBefore := poolOf(l.Ch)
 	poolT := Lst()
-	inPoolBefore := map[types.Hash]*nom.AccountBlock{}
-	for _, b := range poolBefore {
+	for _, b := range poolOf(l.Ch) {
 		poolT = append(poolT, blockZ(b))
-		inPoolBefore[b.Hash] = b
 	}
-	dl := Lst()
+	// the node under the lock
+	var before *nom.Momentum
+	var oldHashes map[uint64]types.Hash
+	var poolBefore []*nom.AccountBlock
+	var inPoolBefore map[types.Hash]*nom.AccountBlock
+	snapshot := func() {
+		before = l.Frontier()
+		oldHashes = map[uint64]types.Hash{}
+		for h := uint64(1); h <= before.Height; h++ {
+			oldHashes[h] = hashAt(l.Ch, h)
+		}
+		poolBefore = poolOf(l.Ch)
+		inPoolBefore = map[types.Hash]*nom.AccountBlock{}
+		for _, b := range poolBefore {
+			inPoolBefore[b.Hash] = b
+		}
+	}
+	snapshot()
 	ds := make([]*nom.DetailedMomentum, len(batch))
 	deliveredBlock := map[types.Hash]bool{}
 	for i, e := range batch {
 		ds[i] = e.d
-		bl := Lst()
 		for _, b := range e.d.AccountBlocks {
-			if b.BlockType == nom.BlockTypeContractSend {
-				continue
+			if b.BlockType != nom.BlockTypeContractSend {
+				deliveredBlock[b.Hash] = true
 			}
-			bl = append(bl, Tup(hashZ(b.Hash), addrZ(b.Address), U64(b.Height), !e.bad(b.Hash)))
-			deliveredBlock[b.Hash] = true
 		}
-		dl = append(dl, Tup(hashZ(e.d.Momentum.Hash), hashZ(e.d.Momentum.PreviousHash), U64(e.d.Momentum.Height), e.okM, bl))
 	}
-	idx, err, p := tryInsert(l, ds)
+	dl := batchTerm(batch)
+	br := l.Br
+	interT := Lst()
+	if first != nil {
+		br = NewBridgeWithPreLockHook(l, func() {
+			for _, ib := range first.run() {
+				interT = append(interT, batchTerm(ib))
+			}
+			snapshot()
+			out.Count("sync:served-first:" + first.name)
+		})
+	}
+	idx, err, p := tryInsertBr(br, ds)
 	cls, cname := errClass(err, p)
 	after := l.Frontier()
 	// what happened to the own chain
@@ -314,7 +522,7 @@ func (w *world) deliver(batch []delivered, kind string, src chain.Chain) {
 			survivors = append(survivors, b)
 		}
 	}
-	out.Case("insert_chain", Tup(local, poolT, dl), Tup(I64(cls), I64(int64(idx)), hashZ(after.Hash), U64(after.Height), surv), kind+" -> "+cname)
+	out.Case("insert_chain", Tup(local, poolT, interT, dl), Tup(I64(cls), I64(int64(idx)), hashZ(after.Hash), U64(after.Height), surv), kind+" -> "+cname)
 	out.Count("sync:kind:" + kind)
 	if len(poolBefore) > 0 {
 		out.Count("sync:delivery-with-pooled-blocks")
@@ -422,6 +630,62 @@ func (w *world) deliver(batch []delivered, kind string, src chain.Chain) {
 			}
 		}
 		out.Oracle(okDrop, "rollback-drops-unconfirmed-pool", M{"kind": kind, "pooled_before": len(poolBefore), "kept": len(survivors), "abandoned_own_momentums": abandoned})
+	}
+	// (1e) an adopted momentum was delivered with exactly the account blocks its content names (as many distinct delivered
+	// blocks as headers, every header names a delivered block), in a form that verifies: the block the node now stores for
+	// a header is byte for byte a delivered copy, or the copy the node had verified itself and held unconfirmed
+	adoptedWith := map[types.Hash]bool{} // every block that travelled with a momentum adopted by this call
+	for h := uint64(2); h <= after.Height; h++ {
+		if h <= before.Height && hashAt(l.Ch, h) == oldHashes[h] {
+			continue
+		}
+		stored := DetailedAt(l.Ch, h)
+		var e *delivered
+		for i := range batch {
+			if batch[i].d.Momentum.Hash == stored.Momentum.Hash {
+				e = &batch[i]
+				break
+			}
+		}
+		if e == nil {
+			out.Oracle(false, "adopted-momentum-was-delivered", M{"kind": kind, "height": U64(h)})
+			continue
+		}
+		ids := map[types.HashHeight][][]byte{}
+		for _, b := range e.d.AccountBlocks {
+			bts, _ := b.Serialize()
+			ids[b.Identifier()] = append(ids[b.Identifier()], bts)
+			adoptedWith[b.Hash] = true
+		}
+		named, verifiedForm := true, true
+		for _, sb := range stored.AccountBlocks {
+			copies, ok := ids[sb.Identifier()]
+			named = named && ok
+			sbts, _ := sb.Serialize()
+			same := inPoolBefore[sb.Hash] != nil && abandoned == 0
+			for _, c := range copies {
+				same = same || bytes.Equal(c, sbts)
+			}
+			verifiedForm = verifiedForm && same
+		}
+		out.Oracle(len(ids) == len(stored.Momentum.Content) && len(stored.AccountBlocks) == len(stored.Momentum.Content) && named && verifiedForm,
+			"adopted-momentum-delivered-with-exactly-its-account-blocks",
+			M{"kind": kind, "height": U64(h), "headers": len(stored.Momentum.Content), "distinct_delivered_blocks": len(ids),
+				"delivered_blocks": len(e.d.AccountBlocks), "every_header_names_a_delivered_block": named, "stored_is_a_delivered_or_own_verified_copy": verifiedForm,
+				"corruption": e.reason})
+	}
+	// (1f) ... and nothing that only rode along with an adopted momentum is left in the node's pool
+	for _, b := range poolAfter {
+		out.Oracle(!(adoptedWith[b.Hash] && inPoolBefore[b.Hash] == nil), "pool-holds-nothing-that-rode-along-with-an-adopted-momentum",
+			M{"kind": kind, "block_account_height": U64(b.Height), "frontier_before": U64(before.Height), "frontier_after": U64(after.Height)})
+	}
+	// (2a) whatever was delivered and whoever wrote first: if the call reports success, the node's chain is the one it had
+	// when the insert lock was taken, or strictly longer than that and forking at most 30 below that frontier
+	if cls == 0 {
+		out.Oracle(after.Identifier() == before.Identifier() || (after.Height > before.Height && abandoned <= 30),
+			"insertchain-success-means-unchanged-or-longer-within-30-of-frontier-under-lock",
+			M{"kind": kind, "frontier_under_lock": U64(before.Height), "frontier_after": U64(after.Height), "abandoned": abandoned,
+				"frontier_before_other_writer": U64(before0.Height)})
 	}
 	// (2) leaving the own chain implies: linked to an own momentum at most 30 below the frontier, strictly longer delivered chain
 	if abandoned > 0 {
@@ -693,6 +957,143 @@ func (w *world) pooledDelivery(s *Node) {
 	}
 }
 
+// ownProduction: the receiving node's own pillar produces k momentums (content: the node's unconfirmed blocks)
+func (w *world) ownProduction(k int) *servedFirst {
+	return &servedFirst{name: fmt.Sprintf("own-pillar-produces-%d", k), run: func() [][]delivered {
+		var r [][]delivered
+		for i := 0; i < k; i++ {
+			d, err := ProduceOnBare(w.l, []int64{10, 10, 20}[w.rng.Intn(3)])
+			if err != nil {
+				panic(err)
+			}
+			bts, _ := d.Momentum.Serialize()
+			w.genuine[d.Momentum.Hash] = bts
+			r = append(r, []delivered{{d: d, okM: true}})
+		}
+		return r
+	}}
+}
+
+// otherBatch: a second InsertChain (fetcher vs downloader) with an honest segment lo..hi of t's chain
+func (w *world) otherBatch(name string, t *Node, lo, hi uint64) *servedFirst {
+	return &servedFirst{name: name, lo: lo, run: func() [][]delivered {
+		seg := w.segment(t.Ch, lo, hi)
+		ds := make([]*nom.DetailedMomentum, len(seg))
+		for i := range seg {
+			ds[i] = seg[i].d
+		}
+		if _, _, p := tryInsert(w.l, ds); p != nil {
+			panic(p)
+		}
+		return [][]delivered{seg}
+	}}
+}
+
+// interleavedDelivery: a batch from s is delivered while another writer of the receiving node gets the insert lock
+// first: the node's own pillar (1..3 momentums), the next momentums of the chain the node follows, the first part of
+// the very batch, or (now and then) nobody. The batch ends around the frontier the node has ONCE THE OTHER WRITER IS
+// DONE (one below, equal, one above, further), its fork point is wherever the histories have put it (in the deep histories
+// 29..31 below the frontier before the other writer, so 29..34 below the one under the lock).
+func (w *world) interleavedDelivery(s, other *Node) {
+	rng, l := w.rng, w.l
+	lf := FrontierOf(l.Ch).Height
+	fp := forkPoint(l.Ch, s.Ch)
+	var first *servedFirst
+	k := uint64(0) // momentums the other writer is going to put on top of the frontier
+	switch c := rng.Intn(8); {
+	case c < 4:
+		k = uint64(1 + rng.Intn(2))
+		if rng.Intn(6) == 0 {
+			k = 3
+		}
+		first = w.ownProduction(int(k))
+	case c < 6:
+		// the chain the node is on grows (announced momentums inserted by the fetcher)
+		if of := FrontierOf(other.Ch).Height; forkPoint(l.Ch, other.Ch) == lf {
+			k = uint64(1 + rng.Intn(2))
+			if of < lf+k {
+				grow(other, rng, int(lf+k-of))
+				w.remember(other)
+			}
+			first = w.otherBatch(fmt.Sprintf("followed-chain-extends-%d", k), other, lf+1, lf+k)
+		} else {
+			k = 1
+			first = w.ownProduction(1)
+		}
+	case c < 7:
+		// the first part of the very batch arrives twice (decided below, once the batch is known)
+	default:
+	}
+	target := lf + k // the frontier under the lock, if the other writer extends
+	hi := target
+	switch rng.Intn(6) {
+	case 0, 1:
+	case 2, 3:
+		hi = target + 1
+	case 4:
+		if target > fp+1 {
+			hi = target - 1
+		}
+	default:
+		hi = target + 2 + uint64(rng.Intn(3))
+	}
+	if hi <= fp {
+		hi = fp + 1
+	}
+	if sf := FrontierOf(s.Ch).Height; sf < hi {
+		if hi-sf > 12 {
+			return
+		}
+		grow(s, rng, int(hi-sf))
+		w.remember(s)
+		fp = forkPoint(l.Ch, s.Ch)
+	}
+	batch := w.span(s, fp, w.prefixLen(), hi)
+	name := "nobody"
+	if first == nil && rng.Intn(3) != 0 && hi > fp+1 {
+		j := fp + 1 + uint64(rng.Intn(int(hi-fp)))
+		first = w.otherBatch("same-batch-first-part", s, fp+1, j)
+	}
+	if first != nil {
+		name = first.name
+	}
+	// now and then the batch has an invalid element as well
+	if rng.Intn(5) == 0 {
+		nk := 0
+		for nk < len(batch) && batch[nk].d.Momentum.Height <= fp {
+			nk++
+		}
+		if nk < len(batch) {
+			i := nk + rng.Intn(len(batch)-nk)
+			corrupt(rng, &batch[i], s.Ch, l.Ch, batch[0].d.Momentum.Height, hi)
+			w.out.Count("sync:corruption:" + batch[i].reason)
+			name += "+invalid-element"
+		}
+	}
+	rel := "tail=frontier-under-lock"
+	switch {
+	case hi < target:
+		rel = "tail<frontier-under-lock"
+	case hi == target+1:
+		rel = "tail=frontier-under-lock+1"
+	case hi > target+1:
+		rel = "tail>frontier-under-lock+1"
+	}
+	depth := "fork-point-within-30-before-and-under-lock"
+	switch {
+	case lf-fp > 30:
+		depth = "fork-point-beyond-30-before-and-under-lock"
+	case target-fp > 30:
+		depth = "fork-point-within-30-before-beyond-under-lock"
+	case lf == fp:
+		depth = "extension-before"
+	}
+	w.out.Count("sync:interleaved:" + rel)
+	w.out.Count("sync:interleaved:" + depth)
+	w.out.Count(fmt.Sprintf("sync:interleaved:depth-under-lock:%02d", min(int(target-fp), 35)))
+	w.deliverAfter(batch, "served-first("+name+")", s.Ch, first)
+}
+
 // one delivery of a random kind from source node s
 func (w *world) randomDelivery(s *Node) {
 	rng := w.rng
@@ -835,6 +1236,7 @@ func syncHistory(rng *rand.Rand, out *Out, first bool) (reproduced bool) {
 	b := NewNode()
 	defer b.Stop()
 	FreezeClock()
+	strays = map[types.Hash][]stray{}
 	w := &world{rng: rng, out: out, a: a, b: b, genuine: map[types.Hash][]byte{}}
 	n0 := 2 + rng.Intn(10)
 	grow(a, rng, n0)
@@ -864,7 +1266,11 @@ func syncHistory(rng *rand.Rand, out *Out, first bool) (reproduced bool) {
 		panic(fmt.Sprint("local chain not accepted: ", err, p))
 	}
 	w.deliver(nil, "empty", a.Ch)
-	if deep {
+	if deep && rng.Intn(2) == 0 {
+		// the same boundary with another writer served first: the window and "longer" move with the frontier under the lock
+		w.interleavedDelivery(b, a)
+	}
+	if deep && forkPoint(w.l.Ch, b.Ch) == fpAB && FrontierOf(w.l.Ch).Height == la {
 		// window boundary: b's branch from the fork point, longer than the local chain, and one of equal length
 		if rng.Intn(3) == 0 {
 			w.deliver(w.segment(b.Ch, fpAB+1, la), fmt.Sprintf("boundary-equal-length-depth%02d", la-fpAB), b.Ch)
@@ -915,12 +1321,17 @@ func syncHistory(rng *rand.Rand, out *Out, first bool) (reproduced bool) {
 			grow(src, rng, int(lf-sf)+1+rng.Intn(3))
 			w.remember(src)
 		}
-		switch rng.Intn(8) {
+		switch rng.Intn(10) {
 		case 0, 1:
 			w.fillPool()
 			w.randomDelivery(src)
 		case 2, 3:
 			w.pooledDelivery(src)
+		case 4, 5:
+			if rng.Intn(2) == 0 {
+				w.fillPool()
+			}
+			w.interleavedDelivery(src, other)
 		default:
 			w.randomDelivery(src)
 		}
